@@ -116,14 +116,78 @@ theorem json_meets (doc : JVal) (l : Labels) : jsonAll doc l = jsonLabels doc l 
     rfl
   | _ => rfl
 
-theorem logfmtParams_meets (fields pairs : List (Bytes × Bytes)) (l : Labels) :
-    logfmtFields fields pairs l = logfmtParamLabels fields pairs l := by
-  simp only [logfmtFields, logfmtParamLabels, Labels.get]
+theorem lookup_fieldsPut (m : List (Bytes × Bytes)) (k v k2 : Bytes) :
+    (fieldsPut m k v).lookup k2 = if k2 = k then some v else m.lookup k2 := by
+  induction m with
+  | nil =>
+    by_cases h : k2 = k
+    · simp [fieldsPut, List.lookup, h]
+    · have : (k2 == k) = false := by simpa using h
+      simp [fieldsPut, List.lookup, h, this]
+  | cons p rest ih =>
+    obtain ⟨k', v'⟩ := p
+    simp only [fieldsPut]
+    by_cases h1 : k' = k
+    · subst h1
+      by_cases h : k2 = k'
+      · simp [List.lookup, h]
+      · have : (k2 == k') = false := by simpa using h
+        simp [List.lookup, h, this]
+    · simp only [h1, if_false, List.lookup]
+      by_cases h : k2 = k'
+      · subst h
+        have : ¬ k2 = k := h1
+        simp [this]
+      · have : (k2 == k') = false := by simpa using h
+        simp only [this, ih]
+
+/-- the map `Process` builds answers a key with the name of the last parameter whose path starts with that key -/
+theorem lookup_paramFields_from (ps : List Ahead) (m : List (Bytes × Bytes)) (k : Bytes) :
+    (ps.foldl (fun m (a : Ahead) => match a.2 with
+      | .key k :: _ => fieldsPut m k a.1
+      | _ => m) m).lookup k = (match fieldParam ps k with | some n => some n | none => m.lookup k) := by
+  induction ps generalizing m with
+  | nil => simp [fieldParam]
+  | cons a rest ih =>
+    simp only [List.foldl_cons, fieldParam]
+    rw [ih]
+    cases hf : fieldParam rest k with
+    | some n => rfl
+    | none =>
+      simp only
+      obtain ⟨n, path⟩ := a
+      cases path with
+      | nil => simp
+      | cons s r =>
+        cases s with
+        | idx i => simp
+        | key k' =>
+          simp only [lookup_fieldsPut, List.head?_cons, Option.some.injEq, PathSeg.key.injEq]
+          by_cases h : k = k'
+          · simp [h]
+          · have : ¬ k' = k := fun e => h e.symm
+            simp [h, this]
+
+theorem lookup_paramFields (ps : List Ahead) (k : Bytes) : (paramFields ps).lookup k = fieldParam ps k := by
+  have := lookup_paramFields_from ps [] k
+  simp only [List.lookup] at this
+  unfold paramFields
+  refine this.trans ?_
+  cases fieldParam ps k <;> rfl
+
+/-- `| logfmt n="k", …`: the map filled by `Process` and consulted by `HandleLogfmt` extracts every logfmt key to
+    the label of the last parameter naming it -/
+theorem logfmtParams_meets (ps : List Ahead) (pairs : List (Bytes × Bytes)) (l : Labels) :
+    logfmtFields (paramFields ps) pairs l = logfmtParamLabels ps pairs l := by
+  simp only [logfmtFields, logfmtParamLabels]
   congr 1
   funext acc kv
+  have hg : Labels.get (paramFields ps) kv.1 = (fieldParam ps kv.1).getD [] := by
+    simp only [Labels.get, lookup_paramFields]
+  rw [hg]
   exact ite_lookup_field _ acc kv.2
 
-/-- the parsers whose LogQL reading is proved for every document (JSON paths: `jsonParams_single` in Proofs/InternalJsonPath.lean, one parameter) -/
+/-- the parsers proved here (JSON paths: `jsonParams_meets` in Proofs/InternalParams.lean, then `parser_meets_all`) -/
 def ParserKind.total : ParserKind → Bool
   | .jsonParams _ => false
   | _ => true
